@@ -1246,7 +1246,15 @@ def _work(args):
 
 
 def nprocs():
-    return max(2, min(10, (os.cpu_count() or 4) - 2))
+    """<= 10 worker processes; fewer on a machine that is already oversubscribed (every spawned worker first pays
+    a few CPU-seconds to import pydra, which is wasted when there is no idle core to run it on).  The result of a
+    check does not depend on the number of workers."""
+    cpus = os.cpu_count() or 4
+    try:
+        busy = int(os.getloadavg()[0])
+    except OSError:
+        busy = 0
+    return max(3, min(10, cpus - 2, cpus - busy))
 
 
 def run_domains(ctx, pid, groups):
